@@ -612,6 +612,9 @@ class Mesh(Observable):
             list_nodes.extend(usedNodes)
 
         nodes = np.asarray(list_nodes, dtype=int)
+        if len(list_normal) == 0:
+            # the nodes bound no complete boundary element
+            return np.zeros((0, 3), dtype=float), nodes
         normals = np.concatenate(list_normal, 0, dtype=float)
 
         return normals, nodes
